@@ -96,6 +96,8 @@ package align
 //@   ensures err == nil ==> forall k string :: has(counts, k) ==> counts[k] > 0 && has(a.seqmap, k)
 //@   ensures (exists k string :: has(counts, k) && (counts[k] <= 0 || !has(a.seqmap, k))) ==> err != nil
 //@   ensures err == nil ==> al != nil && fresh(al) && wfa(al) && al.alphabet == a.alphabet && nrows(al) <= nrows(a) && (nrows(al) > 0 ==> al.length == a.length)
+// (bridge for the solvers: the alignment shares the row list of the rarefied bag, so each of its rows is the bag's row)
+//@   hint err == nil ==> forall q :: 0 <= q && q < nrows(al) ==> (c10b_rrow(rarefySeqBag, a, counts, q) ==> c10b_rrow(al, a, counts, q))
 //@   ensures err == nil ==> forall q :: 0 <= q && q < nrows(al) ==> c10b_rrow(al, a, counts, q)
 //@   ensures [C19] err == nil ==> forall q :: 0 <= q && q < nrows(al) ==> fresh(row(al, q).sequence)
 //@   modifies nothing
